@@ -141,25 +141,12 @@ def executed(stmts):
 
 
 def in_f21(case):
-    """the class of inputs of known finding F21 (Spec.C07.finding_F21): setUp raises and an executed expectThat
-    mismatched.  Only used to decide which cases are generated; the verdict is Coq's."""
+    """setUp raises and an executed expectThat mismatched: the class of the former finding F21 (repaired by /repo
+    889980a); generated like every other case, counted in the input distribution"""
     if not any(raises(st) for st in case["setup"]):
         return False
     ex = executed(case["setup"]) + [st for c in case["cleanups"] for st in executed(c)]
     return any(st[0] == 1 and st[1] is not None for st in ex)
-
-
-def f21_registered():
-    """cases of the class F21 fail the statement on the unchanged tree; they are generated only once the finding is
-    listed in known_findings.json (its witness is then run by the framework on every run as well)"""
-    import json
-    import os
-    root = os.path.dirname(os.path.dirname(os.path.dirname(os.path.dirname(os.path.abspath(__file__)))))
-    try:
-        data = json.load(open(os.path.join(root, "known_findings.json")))
-    except (OSError, ValueError):
-        return False
-    return any(f.get("property") == "C07" and f.get("num") == 21 for f in data.get("findings", []))
 
 
 def gen_test(rng, tier):
@@ -176,6 +163,9 @@ def gen_test(rng, tier):
         prog(pre=[["a", 1], ["a-1", 2], ["a-2", 3]], body=[[F, [["a", 4]], False]]),
         prog(pre=[["a", 1], ["a-1", 2], ["a-2", 3]], body=[[A, [["a", 4], ["a-1", 5]], False]]),
         prog(body=[[F, None, False], [E, [["traceback", 1]], False]]),
+        # a failed expectation in setUp, setUp then skips / a cleanup after a failed setUp has a failed expectation
+        prog(setup=[[E, [["a", 1]], False], [3, 0, False]]),
+        prog(setup=[[3, 2, False]], cleanups=[[[E, [["a", 1]], False]]]),
         # a failed expectation, then the test goes on to skip / reach an expected failure / ...
         prog(body=[[E, [["a", 1]], False], [3, 0, False]]),
         prog(body=[[E, [], True], [3, 2, False]]),
@@ -233,8 +223,6 @@ def gen_test(rng, tier):
             for _ in range(rng.choice([0, 0, 1, 1, 2, 3])):
                 c["cleanups"].append(gen_steps(rng, tok, (0, 1, 1, 2), p_raise=0.4))
         out.append(c)
-    if not f21_registered():
-        out = [c for c in out if not in_f21(c)]
     return out
 
 
@@ -286,6 +274,7 @@ def shrink(case):
 def distribution(cases):
     d = {"kind": {}, "repr_len": {}, "repr_bytes": 0, "repr_ml": {}, "desc_names": 0, "test_steps": {},
          "test_raise": {}, "test_failed_expectation_and_nonfailure_exception": 0,
+         "test_failed_expectation_and_setup_raises": 0,
          "test_with_setup_teardown_or_cleanups": 0, "dexpr_unorderable_dict_keys": 0}
     names = set()
     for c in cases:
@@ -317,6 +306,7 @@ def distribution(cases):
                     if failed and st[1] in (0, 2, 3):
                         d["test_failed_expectation_and_nonfailure_exception"] += 1
                         break
+            d["test_failed_expectation_and_setup_raises"] += in_f21(c)
             if c["teardown"] or c["cleanups"] or c["setup"]:
                 d["test_with_setup_teardown_or_cleanups"] += 1
     d["desc_names"] = len(names)
